@@ -572,7 +572,7 @@ func check(verifDir, repo, id, tier, replay string) int {
 					cmd.Env = append(baseEnv(),
 						"VERIF_PROP="+id, "VERIF_TIER="+tier, fmt.Sprintf("VERIF_BASE=%d", seed),
 						fmt.Sprintf("VERIF_FROM=%d", idx), fmt.Sprintf("VERIF_TO=%d", idx+1), "VERIF_STRIDE=1",
-						"VERIF_BUDGET_MS=600000", "VERIF_OUT="+out, "VERIF_CUR="+cur, "VERIF_NOMIN=1",
+						"VERIF_BUDGET_MS=600000", "VERIF_OUT="+out, "VERIF_CUR="+cur, "VERIF_NOMIN=1", "VERIF_ISOLATED=1",
 						"VERIF_KNOWN="+strings.Join(knownSigs, ","), "GOMAXPROCS=2", "VERIF_REPO_DIR="+repo, "VERIF_DIR="+verifDir, "VERIF_PAMSIM="+pamsimBin)
 					var ob bytes.Buffer
 					cmd.Stdout, cmd.Stderr = &ob, &ob
